@@ -204,7 +204,7 @@ class Terms:
             if "def" in o:
                 return ("cdef", o["def"])
             if "promoted" in o and self.prog is not None and not self.body.path.endswith("]"):
-                pb = self.prog.bodies.get("%s::promoted[%d]" % (self.body.path, o["promoted"]))
+                pb = self.prog.bodies.get("%s::promoted[%d]" % (o.get("promoted_owner") or self.body.path, o["promoted"]))
                 if pb is not None and len(pb.blocks) <= 3:
                     pt = Terms(pb, None)
                     rets = [pt.rvalue(x) if si != "t" else None for (bi, si, x) in pt.defs.whole[0]]
